@@ -36,7 +36,7 @@ func init() {
 	Registry["C20"] = &Check{
 		Level: "exploration",
 		Rule: "race-detector build; child processes run repeated workloads with GOMAXPROCS in {2,4,16} and 2..64 goroutines: W1 one credential shared by goroutines doing first-time and repeated NonrevPrepareCache, proofs with and without non-revocation (with range parts), verification; W2 one public key shared by provers and verifiers of several credentials; " +
-			"W3 the process-wide fast generator and a seeded CPRNG read concurrently; W4 parallel GenerateKeyPair and two concurrent key-proof constructions; every race report is read from the detector's log (halt_on_error=0), de-duplicated by its pair of innermost gabi frames, and any report with a gabi frame is a violation; " +
+			"W3 the process-wide fast generator and a seeded CPRNG read concurrently; W4 parallel GenerateKeyPair, two concurrent key-proof constructions, one key-proof structure shared by a prover and two verifiers of different proofs (copies prepared beforehand, simultaneous start) and 4/8/16 goroutines asking zkproof.BuildGroup for the groups of three primes (each answer compared with the group computed alone); every race report is read from the detector's log (halt_on_error=0), de-duplicated by its pair of innermost gabi frames, and any report with a gabi frame is a violation; " +
 			"every concurrently produced proof is verified and every key checked with the C16 oracle; keystream: a CPRNG with a known seed is read concurrently (8..200 bytes), each result is located in the AES keystream computed by the harness, histories with call/return stamps are checked with porcupine against the model 'Read(n) returns the next unread block range', " +
 			"and long histories by an interval check (ranges pairwise disjoint, gap-free, total = blocks consumed); non-trivial = a workload round completed; distinct by (workload, GOMAXPROCS, goroutines, observed interleaving signature) hash",
 		Run: runC20,
